@@ -375,11 +375,12 @@ Definition step_node_fn (v : variant) (cs : cfgs) (s : pair) (e : ev) (w : who) 
         | None => n
         end
       else n
+  | EStale _ _ => n
   end.
 
 Lemma step_node v cs s e w : node_of w (fst (step v cs s e)) = step_node_fn v cs s e w.
 Proof.
-  unfold step, step_node_fn. destruct e as [w'|w'|w' i|w' i|w'|w' k d|w' f|w'|w' i].
+  unfold step, step_node_fn. destruct e as [w'|w'|w' i|w' i|w'|w' k d|w' f|w'|w' i|w' i].
   - destruct (sm_start (node_of w' s)) as [n t] eqn:E. cbn [fst]. rewrite node_of_set_node.
     destruct w, w'; cbn [who_eqb]; try reflexivity; now rewrite E.
   - cbn [fst]. now rewrite node_of_set_queue.
@@ -403,6 +404,8 @@ Proof.
       (destruct (nth_error _ _) as [m|]; [|reflexivity]);
       destruct (h_req m); cbn [fst]; rewrite ?node_of_set_queue, ?node_of_set_node; cbn [who_eqb];
       rewrite ?node_of_set_queue; reflexivity.
+  - destruct (nth_error _ _) as [m|]; [|reflexivity].
+    destruct (h_req m); cbn [fst]; rewrite ?node_of_set_queue; reflexivity.
 Qed.
 
 (* ------------------------------------------------------------------ handlers, node level *)
@@ -503,7 +506,7 @@ Lemma step_wf v cs s e w :
   wf_node (fix_sa v) (node_of w s) = true -> wf_node (fix_sa v) (step_node_fn v cs s e w) = true.
 Proof.
   intros Ht H. unfold step_node_fn.
-  destruct e as [w'|w'|w' i|w' i|w'|w' k d|w' f|w'|w' i]; try exact H; destruct (who_eqb w w'); try exact H.
+  destruct e as [w'|w'|w' i|w' i|w'|w' k d|w' f|w'|w' i|w' i]; try exact H; destruct (who_eqb w w'); try exact H.
   - destruct (start_facts (node_of w s)) as (_ & Hk & Hs). unfold wf_node in *. rewrite Hk, Hs.
     destruct (n_st (node_of w s)); cbn in *; auto.
   - destruct (nth_error _ _) as [m|]; [|exact H]. rewrite handle_hb_spec. unfold wf_node in *. cbn [n_st n_pknown].
@@ -550,7 +553,7 @@ Lemma coarse_not_ready v cs p e w :
   n_st (node_of w p) <> Ready -> n_st (step_node_fn v cs p e w) <> Ready.
 Proof.
   intros H. unfold step_node_fn.
-  destruct e as [w'|w'|w' i|w' i|w'|w' k d|w' f|w'|w' i]; try exact H; destruct (who_eqb w w'); try exact H.
+  destruct e as [w'|w'|w' i|w' i|w'|w' k d|w' f|w'|w' i|w' i]; try exact H; destruct (who_eqb w w'); try exact H.
   - destruct (start_facts (node_of w p)) as (_ & _ & Hs). rewrite Hs. destruct (n_st (node_of w p)); congruence.
   - destruct (nth_error _ _) as [m|]; [|exact H]. rewrite handle_hb_spec. cbn [n_st]. now apply hb_core_not_ready.
   - destruct (peer_lost_facts (node_of w p)) as (_ & _ & Hs). rewrite Hs.
@@ -762,7 +765,7 @@ Proof.
   - destruct w; cbn [run node_of init_pair p_a p_b cfg_of] in *; apply track_inv_init; destruct Hsm; lia.
   - rewrite run_snoc, step_node. set (s := run v cs (init_pair cs) es) in *.
     unfold step_node_fn.
-    destruct e as [w'|w'|w' i|w' i|w'|w' k d|w' f|w'|w' i].
+    destruct e as [w'|w'|w' i|w' i|w'|w' k d|w' f|w'|w' i|w' i].
     + apply track_inv_frame with (n := node_of w s); [discriminate| |exact IH].
       destruct (who_eqb w w'); [apply start_facts | unfold same_track; auto].
     + apply track_inv_frame with (n := node_of w s); [discriminate|unfold same_track; auto|exact IH].
@@ -784,6 +787,7 @@ Proof.
     + apply track_inv_frame with (n := node_of w s); [discriminate| |exact IH].
       destruct (who_eqb w w'); [|unfold same_track; auto].
       destruct (nth_error _ _); unfold same_track; auto.
+    + apply track_inv_frame with (n := node_of w s); [discriminate|unfold same_track; auto|exact IH].
 Qed.
 
 Lemma effective_priority v cs w es :
@@ -827,7 +831,7 @@ Proof.
   rewrite step_node. intros Hst Hact.
   assert (Hna : is_active (n_st (node_of w s)) = false) by (destruct Hst as [E|E]; rewrite E; reflexivity).
   unfold step_node_fn in Hact. unfold promotion_cause.
-  destruct e as [w'|w'|w' i|w' i|w'|w' k d|w' f|w'|w' i]; try congruence;
+  destruct e as [w'|w'|w' i|w' i|w'|w' k d|w' f|w'|w' i|w' i]; try congruence;
     (destruct (who_eqb w w') eqn:Ew; [apply who_eqb_true in Ew; subst w' | congruence]).
   - destruct (start_facts (node_of w s)) as (_ & _ & Hs). rewrite Hs in Hact.
     destruct Hst as [E|E]; rewrite E in Hact; discriminate Hact.
@@ -926,4 +930,38 @@ Lemma antisym_after_exchange v cs w a b :
 Proof.
   intros Hne r. destruct (exchange_refreshes_views v cs w a b) as (_ & _ & H1 & H2).
   apply wins_antisym; assumption.
+Qed.
+
+(* ------------------------------------------------------------------ staleness filter (Stale.v) *)
+From OV Require Import C10.Stale.
+
+(* whatever the filter lets through to a handler was built after the receiver's last peer-loss detection
+   (fix_sl) and is not older than anything handled since (fix_so) *)
+Lemma sdecide_sound f t p e w i :
+  (fst (sdecide f t p e) = EDeliver w i \/ fst (sdecide f t p e) = ETouch w i) ->
+  (e = EDeliver w i \/ e = ETouch w i) /\
+  forall tag, nth_error (tags_to w t) (i mod length (queue_to w p))%nat = Some tag ->
+    (fix_sl f = true -> (lost_of w t < tag)%nat) /\ (fix_so f = true -> (last_of w t <= tag)%nat).
+Proof.
+  assert (Htags : forall x, tags_to x (tick t) = tags_to x t) by (destruct x; reflexivity).
+  assert (Hlost : forall x, lost_of x (tick t) = lost_of x t) by (destruct x; reflexivity).
+  assert (Hlast : forall x, last_of x (tick t) = last_of x t) by (destruct x; reflexivity).
+  unfold sdecide. destruct e as [w'|w'|w' j|w' j|w'|w' k d|w' g|w'|w' j|w' j]; cbn [fst];
+    try (intros [H|H]; discriminate H).
+  - rewrite Htags. destruct (nth_error (tags_to w' t) _) as [tag|] eqn:E.
+    + destruct (is_stale f (tick t) w' tag) eqn:S; cbn [fst]; intros [H|H]; inversion H; subst.
+      split; [now left|]. intros tag' E'. rewrite E in E'. inversion E'; subst tag'.
+      unfold is_stale in S. rewrite Hlost, Hlast in S. apply Bool.orb_false_iff in S. destruct S as [S1 S2].
+      split; intros Hf; rewrite Hf in *; cbn [andb] in *.
+      * apply Nat.leb_gt in S2. exact S2.
+      * apply Nat.ltb_ge in S1. exact S1.
+    + cbn [fst]. intros [H|H]; inversion H; subst. split; [now left|]. intros tag' E'. rewrite E in E'. discriminate E'.
+  - rewrite Htags. destruct (nth_error (tags_to w' t) _) as [tag|] eqn:E.
+    + destruct (is_stale f (tick t) w' tag) eqn:S; cbn [fst]; intros [H|H]; inversion H; subst.
+      split; [now right|]. intros tag' E'. rewrite E in E'. inversion E'; subst tag'.
+      unfold is_stale in S. rewrite Hlost, Hlast in S. apply Bool.orb_false_iff in S. destruct S as [S1 S2].
+      split; intros Hf; rewrite Hf in *; cbn [andb] in *.
+      * apply Nat.leb_gt in S2. exact S2.
+      * apply Nat.ltb_ge in S1. exact S1.
+    + cbn [fst]. intros [H|H]; inversion H; subst. split; [now right|]. intros tag' E'. rewrite E in E'. discriminate E'.
 Qed.
